@@ -5,6 +5,8 @@ import re
 import numpy as np
 from hypothesis import strategies as st
 
+from mv import hperm
+
 from mv.quiet import silenced
 from mv.runner import FuzzPart, HypPart, Violation
 
@@ -41,7 +43,7 @@ def seqkey(seq):
 @st.composite
 def graph(draw):
     """edges over nodes 0..n-1, every node degree >= 1, no triangles"""
-    n_target = draw(st.integers(2, 14))
+    n_target = draw(hperm.integers(2, 14))
     edges = set()
     adj = {}
     n = 0
@@ -61,7 +63,7 @@ def graph(draw):
         room = n_target - n
         kind = draw(st.sampled_from(["tree", "chain", "star", "ring", "ring", "attach", "attach", "fuse", "spiro"]))
         if kind in ("tree", "chain", "star") and room >= 2:
-            k = draw(st.integers(2, min(room, 9)))
+            k = draw(hperm.integers(2, min(room, 9)))
             nodes = [new_node() for _ in range(k)]
             for i in range(1, k):
                 if kind == "chain":
@@ -69,24 +71,24 @@ def graph(draw):
                 elif kind == "star":
                     p = nodes[0]
                 else:
-                    p = nodes[draw(st.integers(0, i - 1))]
+                    p = nodes[draw(hperm.integers(0, i - 1))]
                 add_edge(p, nodes[i])
             kinds.append(kind)
         elif kind == "ring" and room >= 4:
-            k = draw(st.integers(4, min(room, 8)))
+            k = draw(hperm.integers(4, min(room, 8)))
             nodes = [new_node() for _ in range(k)]
             for i in range(k):
                 add_edge(nodes[i], nodes[(i + 1) % k])
             kinds.append("ring%d" % k)
         elif kind == "attach" and n >= 2 and room >= 1:
             # grow a substituent on an existing node (links components' sizes, branched centres)
-            p = draw(st.integers(0, n - 1))
+            p = draw(hperm.integers(0, n - 1))
             add_edge(p, new_node())
             kinds.append("attach")
         elif kind == "fuse" and n >= 2 and room >= 2 and edges:
             # a new ring sharing an existing edge (fused rings), size >= 4
             u, v = draw(st.sampled_from(sorted(edges)))
-            k = draw(st.integers(2, min(room, 4)))
+            k = draw(hperm.integers(2, min(room, 4)))
             nodes = [new_node() for _ in range(k)]
             add_edge(u, nodes[0])
             for i in range(1, k):
@@ -94,8 +96,8 @@ def graph(draw):
             add_edge(nodes[-1], v)
             kinds.append("fused%d" % (k + 2))
         elif kind == "spiro" and n >= 1 and room >= 3:
-            u = draw(st.integers(0, n - 1))
-            k = draw(st.integers(3, min(room, 5)))
+            u = draw(hperm.integers(0, n - 1))
+            k = draw(hperm.integers(3, min(room, 5)))
             nodes = [new_node() for _ in range(k)]
             add_edge(u, nodes[0])
             for i in range(1, k):
@@ -103,23 +105,23 @@ def graph(draw):
             add_edge(nodes[-1], u)
             kinds.append("spiro%d" % (k + 1))
         elif room == 1 and n >= 1:
-            add_edge(draw(st.integers(0, n - 1)), new_node())
+            add_edge(draw(hperm.integers(0, n - 1)), new_node())
             kinds.append("attach")
         elif n == 0:
             a, b = new_node(), new_node()
             add_edge(a, b)
             kinds.append("chain")
     # extra ring closures that create no triangle
-    for _ in range(draw(st.integers(0, 2))):
-        u = draw(st.integers(0, n - 1))
-        v = draw(st.integers(0, n - 1))
+    for _ in range(draw(hperm.integers(0, 2))):
+        u = draw(hperm.integers(0, n - 1))
+        v = draw(hperm.integers(0, n - 1))
         if u != v and v not in adj[u] and not (adj[u] & adj[v]):
             add_edge(u, v)
             kinds.append("closure")
     # random relabelling, order and direction of the bond list
-    perm = list(draw(st.permutations(range(n))))
+    perm = list(draw(hperm.permutations(range(n))))
     elist = [(perm[u], perm[v]) for u, v in sorted(edges)]
-    elist = [elist[i] for i in draw(st.permutations(range(len(elist))))]
+    elist = [elist[i] for i in draw(hperm.permutations(range(len(elist))))]
     flips = draw(st.lists(st.booleans(), min_size=len(elist), max_size=len(elist)))
     elist = [[v, u] if f else [u, v] for (u, v), f in zip(elist, flips)]
     return n, elist, kinds
@@ -133,10 +135,10 @@ def case(draw):
     palette = list(dict.fromkeys(draw(st.lists(st.sampled_from(COMMON + COMMON + allt), min_size=1, max_size=5))))
     types = [draw(st.sampled_from(palette)) for _ in range(n)]
     excl_k = draw(st.sampled_from([None, None, 0, 1, 2, 3, 4, 5, 8]))
-    exclude = None if excl_k is None else sorted(draw(st.sets(st.integers(0, n - 1), min_size=min(excl_k, n), max_size=min(excl_k, n))))
+    exclude = None if excl_k is None else sorted(draw(st.sets(hperm.integers(0, n - 1), min_size=min(excl_k, n), max_size=min(excl_k, n))))
     return {"n": n, "bonds": bonds, "types": types, "kinds": kinds, "exclude": exclude,
-            "rename": list(draw(st.permutations(range(n)))),
-            "shuffle_seed": draw(st.integers(0, 10 ** 6)),
+            "rename": list(draw(hperm.permutations(range(n)))),
+            "shuffle_seed": draw(hperm.integers(0, 10 ** 6)),
             "rules": draw(st.sampled_from([None, None, "azido", "resonant"]))}
 
 
